@@ -45,6 +45,16 @@ ENGINES.append({"name": "H4-devicemanager", "path": "harness/dm_harness.cpp + ha
                                   "driver modules laid out next to a copy of the harness executable; python re as the "
                                   "reference for whole-name matching; one child process per library layout under ASan+UBSan"})
 
+ENGINES.append({"name": "H2-runtime", "path": "harness/rt_harness.c + harness/rt_mockdrv.c + harness/rt_mock.h + engines/rt.py",
+                "serves_properties": ["C04", "C05", "C06", "C07", "C08", "C09", "C10"],
+                "kind_free_text": "the real acquire-video-runtime + HAL with queue capacities substituted at link time "
+                                  "(1.2-20 frames), a thread_create trampoline as worker ledger, wrapped channel calls for delay "
+                                  "injection / instant detection, and a recording, fault-injecting mock driver module "
+                                  "(libacquire-driver-hdcam.so) next to the executable; ASan+UBSan build"})
+
+_RT_NOTE = ("queue capacities are substituted, everything else is repository code; schedules are sampled, not enumerated; a hang is a "
+            "violation only with a quiescence witness and after it repeated in a fresh process; trusts the mock driver (~350 lines)")
+
 CHECKS = {
     "C01": dict(
         engine="H1-channel", technique="runtime monitoring: reference-model oracle over controlled interleavings + sanitizer stress",
@@ -141,6 +151,51 @@ CHECKS = {
              "must be statuses (no signal, no escaping exception, no ASan/UBSan report), and every enumerated camera/"
              "storage identifier must open to a device of that kind and name.",
         note="the grammar of class (i) avoids constructs on which ECMAScript and python regexes differ; raw-byte inputs have the weaker 'Ok => enumerated device of that kind' oracle"),
+    "C04": dict(
+        engine="H2-runtime", technique="runtime monitoring: camera-log vs storage-log equality oracle (recording mock driver) over wrapping queues with injected delays",
+        level="exploration", design_ref="DESIGN.md section 4 / H2 / C04",
+        text="Hundreds of finite acquisitions per run on queues of a few frames: the storage device's log must equal the camera's "
+             "log frame by frame (id, hardware id, shape, pixel hash) for every stream, for every pacing / latency / write-delay / "
+             "client combination, with delays injected between channel operations.", note=_RT_NOTE),
+    "C05": dict(
+        engine="H2-runtime", technique="runtime monitoring: packet-structure invariant checked at every storage append and client map",
+        level="exploration", design_ref="DESIGN.md section 4 / H2 / C05",
+        text="Every packet handed to the mock storage and every region mapped by the client is walked: alignment, size field, exact "
+             "chaining, shape equality with the camera's frame; shapes cover all size residues mod 8, all sample types, mid-run "
+             "shape changes, wrap positions and partial client consumption.", note=_RT_NOTE),
+    "C06": dict(
+        engine="H2-runtime", technique="runtime monitoring: client-side sequence oracle with epoch-tagged frames across acquisitions",
+        level="exploration", design_ref="DESIGN.md section 4 / H2 / C06",
+        text="A polling client (eager, slow, partial, holding, late-joining) across 2-8 acquisitions ended by stop or abort: ids "
+             "consecutive, pixels identical to the camera's, nothing from an earlier epoch, nothing after stop/abort returned, "
+             "map/unmap keep succeeding; storage must be unaffected. One known finding (late join) is listed in known_findings.txt.",
+        note=_RT_NOTE + "; a registered client is assumed to keep polling"),
+    "C07": dict(
+        engine="H2-runtime", technique="runtime monitoring: abort injected at hook-detected instants + post-condition oracle + quiescence-witness hang detection",
+        level="exploration", design_ref="DESIGN.md section 4 / H2 / C07",
+        text="Abort is fired from a second thread at instants detected by interposition (writer asleep on a full queue, storage "
+             "inside append, camera waiting for a trigger, client holding a region, right after a wrap, after completion, dead "
+             "filter thread) and at random delays; abort must return, workers gone, camera stopped, Armed, gap-free correct "
+             "prefix in storage, and the next acquisition complete and clean.", note=_RT_NOTE),
+    "C08": dict(
+        engine="H2-runtime", technique="runtime monitoring: device life-cycle automaton over the recording driver's event log for grammar-generated API programs",
+        level="exploration", design_ref="DESIGN.md section 4 / H2 / C08",
+        text="Random API programs over mock and real common devices; an automaton over the mock driver's event log enforces "
+             "open/close/start/stop/append discipline per device instance (freed instances: ASan), the state function is checked "
+             "against the worker ledger. Programs that configure/start while running are a separate family whose failures are "
+             "one known finding.", note=_RT_NOTE),
+    "C09": dict(
+        engine="H2-runtime", technique="runtime monitoring: fault injection at device call index k (camera get_frame / storage append) x queue fill level, post-fault oracle",
+        level="exploration", design_ref="DESIGN.md section 4 / H2 / C09",
+        text="Camera and storage faults at sampled frame indices with the queue empty, half full or the writer asleep on a full "
+             "queue, ended by stop or abort: nothing appended after the failure, camera stopped, stop/abort return, not Running "
+             "once workers exited, and the next fault-free acquisition passes the C04 oracle (no stale frames).", note=_RT_NOTE),
+    "C10": dict(
+        engine="H2-runtime", technique="runtime monitoring: numeric reference oracle (exact window means recomputed from the camera's pixel function)",
+        level="exploration", design_ref="DESIGN.md section 4 / H2 / C10",
+        text="Averaging k=2..8 over integer types with the output queue holding 1.5-6 frames so accumulators land on reused "
+             "memory; storage must receive ids 0,k,2k,... with every pixel within 1 ulp of the exact mean, floor(N/k) windows "
+             "and at most one trailing frame, over repeated acquisitions on one runtime.", note=_RT_NOTE),
 }
 
 PENDING_REASON = "check not built yet in this round (planned in DESIGN.md section 4; will be claimed once its harness exists)"
